@@ -22,6 +22,14 @@ CLAIMS = {
         note=('Trusted: extractor + lowering rules, CBMC/cvc5, stubs; the prefix sum is an abstract monotone lookup (assumed contract); determineUnitRanges* use the cut view of '
               'divideNodesBinarySearch, an assumed contract that is the consequence of the proved adjacency/ends lemmas (one hand-made step); template code for the listed instantiations only; '
               'signed block_range and the node pieces of divideByEdge are not claimed.')),
+    'C06': dict(
+        text=('Proof, per operation, thread-modular (an environment step may rewrite the lock word before every atomic operation, except while this thread holds the lock): SimpleLock '
+              'lock/slow_lock/try_lock/unlock/is_locked, PtrLock lock/try_lock/unlock/unlock_and_clear/unlock_and_set/getValue/setValue/CAS/is_locked, PaddedLock<true>, ThreadRWlock '
+              'read/write lock/unlock and the fast-mode fork signal per_signal::wakeup/wait are extracted from the working tree and verified: the lock bit is taken only by an RMW that observed '
+              'it clear and asked for >= acquire, released only by the holder with >= release, pointer bits preserved, failed attempts write nothing; the writer takes all per-thread locks in '
+              'ascending order; the worker observes the master\'s release flag with >= acquire.  Weakening any memory_order (invisible on x86) fails a named postcondition.'),
+        note=('ptr_slow_lock is a BOUNDED stand-in (<= 3 spins; goto-instrument does not attach its loop contract). Not decided: fairness, full C++-model executions, mutex/condvar paths, '
+              'barrier and worklist edges. Trusted: interference stub and its rely, the one-word mutual-exclusion argument, C++ release/acquire rule.')),
     'C09': dict(
         text=('Proof, per function: BumpHeap::refill/allocate/allocate(size,allocated&), BumpWithMallocHeap::refill/allocate (the per-iteration heap), BlockHeap<1|8|24|40>::refill/allocate '
               '(struct layout and "how many fit" enum extracted from the class), FreeListHeap::allocate/deallocate, Pow_2_BlockHeap::pow2/nextLog2/allocateBlock/deallocateBlock, '
